@@ -116,6 +116,10 @@ type NodeOpts struct {
 	FastNodeOff     bool   `json:"fastnode_off"`
 	InterBlockCache bool   `json:"interblock_cache"`
 	SkipGenesisInv  bool   `json:"skip_genesis_inv"`
+	// Noise: node-local activity interleaved with block execution when a recording is replayed (C01):
+	// 0 none; 1 CheckTx of every tx of a block before the block starts (a node with a mempool);
+	// 2 additionally Simulate and ReCheckTx calls between DeliverTx calls, and list/point queries after commits.
+	Noise int `json:"noise,omitempty"`
 }
 
 type Account struct {
@@ -642,6 +646,28 @@ func (c *Chain) CheckTx(bz []byte) (resp abci.ResponseCheckTx, pan interface{}) 
 		}
 	}()
 	resp = c.App.CheckTx(abci.RequestCheckTx{Tx: bz, Type: abci.CheckTxType_New})
+	return
+}
+
+// ReCheckTx is the mempool's re-validation after a commit.
+func (c *Chain) ReCheckTx(bz []byte) (resp abci.ResponseCheckTx, pan interface{}) {
+	defer func() {
+		if r := recover(); r != nil {
+			pan = r
+		}
+	}()
+	resp = c.App.CheckTx(abci.RequestCheckTx{Tx: bz, Type: abci.CheckTxType_Recheck})
+	return
+}
+
+// Simulate runs the transaction in simulation mode (gas estimation by clients).
+func (c *Chain) Simulate(bz []byte) (pan interface{}) {
+	defer func() {
+		if r := recover(); r != nil {
+			pan = r
+		}
+	}()
+	_, _, _ = c.App.Simulate(bz)
 	return
 }
 
